@@ -109,7 +109,7 @@ func c14Desired(objs []string) []string {
 const c14Bad = "INSERT INTO no_such_table VALUES (1);"
 
 func (c *c14Case) usesDir() bool {
-	return strings.HasPrefix(c.Cmd, "migrate-")
+	return strings.HasPrefix(c.Cmd, "migrate-") && !strings.HasSuffix(c.Cmd, "-nofiles")
 }
 
 func (c *c14Case) usesSQLSrc() bool {
@@ -166,7 +166,10 @@ table "extra" {
 func c14Cases(e *Env) []c14Case {
 	cmds := []string{"migrate-diff-sql", "migrate-diff-hcl", "migrate-validate", "migrate-lint", "migrate-lint-checkpoint", "migrate-validate-checkpoint", "schema-apply-sql", "schema-apply-hcl", "schema-diff", "schema-inspect",
 		// the desired state given as a DIRECTORY of SQL schema files (no atlas.sum): replayed on the dev database like a migration directory
-		"migrate-diff-sqldir", "schema-apply-sqldir", "schema-diff-sqldir"}
+		"migrate-diff-sqldir", "schema-apply-sqldir", "schema-diff-sqldir",
+		// commands with nothing to replay (an empty directory / a window of no files): the dev database they were
+		// given is checked all the same
+		"migrate-lint-nofiles", "migrate-validate-nofiles"}
 	devs := []string{"missing", "empty", "table", "table-index-trigger", "view", "revisions", "two-tables", "virtual-fts", "virtual-rtree", "table-sqlitedata", "table-libsqlx"}
 	objsets := [][]string{{"table"}, {"table", "index", "view", "trigger"}, {"table", "txn"}}
 	var out []c14Case
@@ -295,6 +298,9 @@ func runC14(e *Env) error {
 			}
 			files = append(files, dirFile{"4_checkpoint.sql", b.String()}, dirFile{"5_f.sql", "CREATE TABLE after_ck (id integer NOT NULL);\n"})
 		}
+		if strings.HasSuffix(c.Cmd, "-nofiles") {
+			files = nil
+		}
 		if err := writeMigrationDir(filepath.Join(dir, "m"), files); err != nil {
 			return
 		}
@@ -342,8 +348,10 @@ func runC14(e *Env) error {
 			args = []string{"migrate", "lint", "--dir", "file://m", "--dev-url", dev, "--latest", "2"}
 		case "migrate-lint-checkpoint":
 			args = []string{"migrate", "lint", "--dir", "file://m", "--dev-url", dev, "--latest", "2"}
-		case "migrate-validate-checkpoint":
+		case "migrate-validate-checkpoint", "migrate-validate-nofiles":
 			args = []string{"migrate", "validate", "--dir", "file://m", "--dev-url", dev}
+		case "migrate-lint-nofiles":
+			args = []string{"migrate", "lint", "--dir", "file://m", "--dev-url", dev, "--latest", "2"}
 		case "schema-apply-sql":
 			args = []string{"schema", "apply", "--url", "sqlite://target.sqlite", "--to", "file://desired.sql", "--dev-url", dev, "--auto-approve"}
 		case "schema-apply-hcl":
@@ -393,7 +401,7 @@ func runC14(e *Env) error {
 			return
 		}
 		if nonEmpty {
-			if o.Code == 0 && used {
+			if o.Code == 0 && (used || strings.HasSuffix(c.Cmd, "-nofiles")) {
 				viol("failing-input", "non-empty-dev-accepted", fmt.Sprintf("%s with a dev database containing %v: the command did not refuse (exit 0); dev afterwards:\n%s", strings.Join(args, " "), devBefore.Master, trunc(devAfter.canon(true), 300)), "Props.C14.refuse_nonempty", rep)
 			}
 			if devBefore.canon(true) != devAfter.canon(true) {
